@@ -16,7 +16,7 @@
 using namespace smt;
 
 #define V 3
-#define MAXV 12
+#define MAXV 16
 static int OP;
 
 static inline bool lval(const bool *a, const lit &p) { return sign(p) ? a[variable(p)] : !a[variable(p)]; }
@@ -62,7 +62,7 @@ static lit build(sat_core &s, const lit *args, int n, bool reversed)
 }
 
 // does the total assignment a satisfy everything the network currently holds (root assignments and clauses)?
-static bool is_model(sat_core &s, const bool *a)
+__attribute__((noinline)) static bool is_model(sat_core &s, const bool *a)
 {
   bool ok = true;
   for (size_t v = 0; v < s.assigns.size(); ++v)
@@ -138,14 +138,21 @@ extern "C" void h_reify()
   bool orig_ok = !o[0];
   for (int i = 1; i <= V; i++)
     if (pre[i] != 0) orig_ok = orig_ok & (o[b[i]] == (pre[i] == 1));
-  if (orig_ok && s.assigns.size() <= nv0 + 1)
-  { // at most one auxiliary variable: its value is the returned literal's value, which must be the formula's value
+  const int naux = (int)(s.assigns.size() - nv0);
+  if (orig_ok && naux <= 4)
+  { // the auxiliary variables (at most 4 here; larger encodings are covered by h_grid) are enumerated: there must be an extension that is a
+    // model in which the returned literal is true (formula true) / false (formula false)
     bool fw = formula(o, args, n, true), fs = formula(o, args, n, false);
-    bool ot[MAXV], of[MAXV];
-    for (size_t v = 0; v < MAXV; v++) { ot[v] = v < nv0 ? o[v] : true; of[v] = v < nv0 ? o[v] : false; }
-    bool mt = is_model(s, ot) && lval(ot, r), mf = is_model(s, of) && !lval(of, r);
-    bool mt2 = is_model(s, ot) && lval(ot, r2), mf2 = is_model(s, of) && !lval(of, r2);
-    if (s.assigns.size() == nv0) { mt = is_model(s, o) && lval(o, r); mf = is_model(s, o) && !lval(o, r); mt2 = is_model(s, o) && lval(o, r2); mf2 = is_model(s, o) && !lval(o, r2); }
+    bool mt = false, mf = false, mt2 = false, mf2 = false;
+    for (int e = 0; e < 16; e++)
+    {
+      if (e >= (1 << naux)) break;
+      bool x[MAXV];
+      for (size_t v = 0; v < MAXV; v++) x[v] = v < nv0 ? o[v] : (v < nv0 + 4 ? ((e >> (v - nv0)) & 1) != 0 : false);
+      const bool im = is_model(s, x);
+      mt = mt | (im && lval(x, r)); mf = mf | (im && !lval(x, r));
+      mt2 = mt2 | (im && lval(x, r2)); mf2 = mf2 | (im && !lval(x, r2));
+    }
     if (fs) CHECK(mt, "an assignment satisfying the formula extends to a model in which the returned literal is true");
     if (!fw) CHECK(mf, "an assignment falsifying the formula extends to a model in which the returned literal is false");
     CHECK(mt || mf, "construction excludes no assignment of the original variables");
@@ -193,9 +200,19 @@ extern "C" void h_grid()
   const bool amo = c2 <= 1;
   for (int i = 0; i < ps; i++) o[nv0 + i] = amo && k >= 0 && i == k / qs;
   for (int j = 0; j < qs; j++) o[nv0 + ps + j] = amo && k >= 0 && j == k % qs;
-  for (size_t v = nv0 + ps + qs; v < MAXW; v++) o[v] = (OP == 3 ? amo : c2 == 1); // the three reification variables: true iff the (whole) constraint holds
-  CHECK(is_model(s, o), "every assignment of the arguments extends to a model (grid encoding excludes nothing)");
-  CHECK(lval(o, r) == (OP == 3 ? amo : c2 == 1), "the extension gives the returned literal the value of the cardinality formula (grid encoding)");
+  // the remaining (reification) variables - at-most-one of the rows, of the columns, their conjunction, and whatever exactly-one adds on top -
+  // are enumerated: some extension must be a model in which the returned literal has the value of the (whole) cardinality formula
+  const int tail = (int)s.assigns.size() - (int)(nv0 + ps + qs);
+  CHECK(tail >= 0 && tail <= 5, "harness bound on reification variables");
+  const bool want = OP == 3 ? amo : c2 == 1;
+  bool found = false;
+  for (int e = 0; e < 32; e++)
+  {
+    if (e >= (1 << tail)) break;
+    for (int t = 0; t < 5; t++) if (nv0 + ps + qs + t < MAXW) o[nv0 + ps + qs + t] = ((e >> t) & 1) != 0;
+    found = found | (is_model(s, o) && lval(o, r) == want);
+  }
+  CHECK(found, "every assignment of the arguments extends to a model in which the returned literal has the value of the cardinality formula (grid encoding excludes nothing)");
   WITNESS_POINT();
 }
 
@@ -237,5 +254,52 @@ extern "C" void h_pair()
       CHECK(!lval(a, ra2) || fa, "first cardinality literal requested again forces its constraint");
     }
   }
+  WITNESS_POINT();
+}
+
+// ---------------------------------------------------------------------------------------------------------------
+// two constructs of DIFFERENT kinds over the SAME arguments (expression-cache interference across kinds, reuse of one construct inside
+// another): A = opA(args), B = opB(args) (B optionally with reversed argument order), then A requested again.
+//   (->) in every model each returned literal has the value of ITS OWN formula (cardinality kinds: true forces the constraint)
+//   (<-) nothing is excluded: every assignment of the argument variables extends (over the auxiliary variables, enumerated) to a model in
+//        which BOTH returned literals have the value of their own formula
+//   PARAM(0) = opA, PARAM(1) = opB, PARAM(2) = n (2..3), PARAM(3) = B reversed, PARAM(4..4+n) = signs
+#define MAXAUX 6
+extern "C" void h_cross()
+{
+  const int opa = PARAM(0), opb = PARAM(1), n = PARAM(2);
+  const bool rev = PARAM(3) != 0;
+  sat_core &s = *new sat_core();
+  lit args[3];
+  for (int i = 0; i < n; i++) args[i] = lit(s.new_var(), PARAM(4 + i) != 0);
+  const size_t nv0 = s.assigns.size();
+  OP = opa; const lit ra = build(s, args, n, false);
+  OP = opb; const lit rb = build(s, args, n, rev);
+  OP = opa; const lit ra2 = build(s, args, n, false);
+  bool pr = s.propagate();
+  CHECK(pr, "building the constructs leaves the network consistent");
+  CHECK(s.assigns.size() <= nv0 + MAXAUX && s.assigns.size() <= MAXV, "harness bound on auxiliary variables");
+  const int naux = (int)(s.assigns.size() - nv0);
+  bool a[MAXV];
+  for (int i = 0; i < MAXV; i++) a[i] = nondet_bool();
+  OP = opa; const bool fa = formula(a, args, n, true);
+  OP = opb; const bool fb = formula(a, args, n, true);
+  if (is_model(s, a))
+  {
+    if (opa <= 2) { CHECK(lval(a, ra) == fa, "first construct equivalent to its formula in every model (other kind built over the same arguments)"); CHECK(lval(a, ra2) == fa, "first construct requested again equivalent to its formula"); }
+    else { CHECK(!lval(a, ra) || fa, "first cardinality literal forces its constraint (other kind built over the same arguments)"); CHECK(!lval(a, ra2) || fa, "first cardinality literal requested again forces its constraint"); }
+    if (opb <= 2) CHECK(lval(a, rb) == fb, "second construct (other kind, same arguments) equivalent to ITS formula in every model");
+    else CHECK(!lval(a, rb) || fb, "second cardinality literal (other kind, same arguments) forces ITS constraint");
+  }
+  // (<-): a[0..nv0) is an arbitrary assignment of the argument variables (a[0], the constant variable, must be false)
+  bool found = false;
+  for (int e = 0; e < (1 << MAXAUX); e++)
+  {
+    if (e >= (1 << naux)) break;
+    bool o[MAXV];
+    for (size_t v = 0; v < MAXV; v++) o[v] = v < nv0 ? a[v] : (v < nv0 + MAXAUX ? ((e >> (v - nv0)) & 1) != 0 : false);
+    found = found | (is_model(s, o) && lval(o, ra) == fa && lval(o, rb) == fb && lval(o, ra2) == fa);
+  }
+  if (!a[0]) CHECK(found, "every assignment of the arguments extends to a model in which both constructs have the value of their own formula");
   WITNESS_POINT();
 }
